@@ -7,10 +7,11 @@ import (
 )
 
 type TMand struct {
-	IE  string `json:"ie"`
-	Fmt string `json:"fmt"` // V | LV | LV-E
-	Len int    `json:"len"`
-	Cap int    `json:"cap"`
+	IE    string `json:"ie"`
+	Fmt   string `json:"fmt"` // V | LV | LV-E
+	Len   int    `json:"len"`
+	Cap   int    `json:"cap"`
+	Fixed bool   `json:"fixed"`
 }
 
 type TOpt struct {
@@ -20,6 +21,7 @@ type TOpt struct {
 	Len    int    `json:"len"`
 	Cap    int    `json:"cap"`
 	Fixed1 bool   `json:"fixed1"`
+	Fixed  bool   `json:"fixed"`
 }
 
 type TMsg struct {
